@@ -125,7 +125,7 @@ pub fn is_modelled(op: u8) -> bool {
         | 81..=96               // OP_1 .. OP_16
         | 97                    // OP_NOP
         | 105..=136             // VERIFY .. EQUALVERIFY
-        | 139 | 140             // 1ADD 1SUB
+        | 139..=142             // 1ADD 1SUB 2MUL 2DIV
         | 143..=171             // NEGATE .. CODESEPARATOR
         | 176                   // NOP1
         | 179..=185             // NOP4 .. NOP10
@@ -458,12 +458,15 @@ fn exec(op: u8, st: &mut Vec<Vec<u8>>, alt: &mut Vec<Vec<u8>>) -> Result<(), Sto
         }
 
         // ---- unary arithmetic
-        139 | 140 | 143 | 144 | 145 | 146 => {
+        139 | 140 | 141 | 142 | 143 | 144 | 145 | 146 => {
             need(st, 1)?;
             let n = pop_num(st);
             let r = match op {
                 139 => enc(&(n + 1)),
                 140 => enc(&(n - 1)),
+                // OP_2MUL / OP_2DIV (where enabled): times two; halved, rounding toward zero like OP_DIV
+                141 => enc(&(n * 2)),
+                142 => enc(&(n / 2)),
                 143 => enc(&(-n)),
                 144 => enc(&n.abs()),
                 145 => bool_item(n.is_zero()),
@@ -1363,8 +1366,18 @@ mod tests {
 
     fn rows_unmodelled() -> Vec<Row> {
         vec![
-            unm("141", "01 02"),
-            unm("142", "01 02"),
+            // OP_2MUL / OP_2DIV: x2; /2 toward zero
+            ok("141", "01 03", "01 06"),
+            ok("141", "81", "82"),
+            ok("141", "7f", "fe00"),
+            ok("141", "ff00", "fe01"),
+            ok("141", "e", "e"),
+            ok("142", "01 03", "01 01"),
+            ok("142", "83", "81"),
+            ok("142", "01", "e"),
+            ok("142", "81", "e"),
+            ok("142", "0001", "8000"),
+            fail("141", ""),
             unm("177", "01 02"),
             unm("178", "01 02"),
             unm("98", "01 02"),
@@ -1393,7 +1406,7 @@ mod tests {
             unm("78", "01"),
             unm("1", "01"),
             unm("75", "01"),
-            Row { p: "OP_7 141 OP_8", s: "cc", a: "dd", k: Kind::Unm, es: "cc 07", ea: "dd" },
+            Row { p: "OP_7 177 OP_8", s: "cc", a: "dd", k: Kind::Unm, es: "cc 07", ea: "dd" },
         ]
     }
 
@@ -1552,7 +1565,7 @@ mod tests {
 
     #[test]
     fn unmodelled_cases() {
-        for op in [141u8, 142, 177, 178, 98, 80, 172] {
+        for op in [177u8, 178, 98, 80, 172] {
             assert!(!is_modelled(op));
             let mut m = Model::with_stacks(&[El::Op(op)], stack_of("01 02"), stack_of("03"));
             assert_eq!(kind_of(&m.step()), Kind::Unm, "op {}", op);
